@@ -7,6 +7,7 @@
           | (span ID KIND EN RT RS (props (xKEY IDVAL)…) T…)    KIND ::= sync|newspan|direct|async|anewspan|adirect
                                                                  EN ::= true|false   RT, RS ::= none | N
           | (hop THREAD T…) | (exec (threads T0 T1…) T…) | (yield) | (par ((branch T…)…) (sched I…))
+          | (panic) | (catch T…)                 a panic unwinds to the nearest catch (or ends the case: `;panic`)
     The model executes the tree on the C03 machine (`runT`): `hop`/`exec` become `group` nodes (a
     `Frame::current` carried to that thread), `yield` disappears, the branches of `par` run one after the other.
 -/
@@ -64,12 +65,18 @@ partial def tree? (t : Nat) : Sexp → Option (List Tree)
     let th ← th.nat?
     let children ← trees? th children
     pure [.group th children]
+  | .list [.atom "panic"] => some [.panic]
+  | .list (.atom "catch" :: children) => do
+    let children ← trees? t children
+    pure [.catch_ children]
   | .list [.atom "yield"] => some []
   | .list [.atom "par", .list branches, .list (.atom "sched" :: _)] => do
     let bs ← branches.mapM fun
       | .list (.atom "branch" :: items) => trees? t items
       | _ => none
-    pure bs.flatten
+    -- a panic that leaves a `par` branch would drop the sibling branches' futures (their started spans then
+    -- complete outside their frames): outside the modelled usage, the harness rejects such cases too
+    if bs.any Span.panicsL then none else pure bs.flatten
   | _ => none
 partial def trees? (t : Nat) (xs : List Sexp) : Option (List Tree) := do
   let ys ← xs.mapM (tree? t)
@@ -87,6 +94,7 @@ mutual
 partial def depth : Tree → Nat
   | .span _ _ _ _ _ ch => 1 + depthL ch
   | .group _ ch => depthL ch
+  | .catch_ ch => depthL ch
   | _ => 0
 partial def depthL : List Tree → Nat
   | [] => 0
@@ -104,7 +112,7 @@ def signature (line : String) (ts : List Tree) (incoming : List (String × IdVal
     let cs := line.toList
     let has (s : String) : String := if hasInfix s.toList cs then "1" else "0"
     let inc := if incoming.isEmpty then "0" else "1"
-    s!"depth={min d 6},in={inc},dis={has " false "},async={has " async "},par={has "(par "},hop={has "(hop "},exec={has "(exec "},none={has " none "}"
+    s!"depth={min d 6},in={inc},dis={has " false "},async={has " async "},par={has "(par "},hop={has "(hop "},exec={has "(exec "},none={has " none "},panic={has "(panic)"}"
 
 def runC04 (line : String) : String :=
   match Sexp.parse line with
@@ -117,7 +125,7 @@ def runC04 (line : String) : String :=
       let s2 := step s1 (.enter 0 0 0)
       let (recs, _, _) := runL 0 0 ts s2 1
       let out := (recs.map Rec.render).mergeSort (fun a b => !(b < a))
-      ";".intercalate out ++ "\t" ++ signature line ts incoming
+      ";".intercalate out ++ (if Span.panicsL ts then ";panic" else "") ++ "\t" ++ signature line ts incoming
     | _, _ => "bad-op"
   | _ => "bad-op"
 
